@@ -297,7 +297,7 @@ theorem shrink_stop (rt : RT) : Shrink rt (stopRT rt) := by
   unfold stopRT
   split
   · exact Shrink.refl rt
-  · refine Shrink.trans (b := { rt with st := { rt.st with status := "stopped" }, timers := [], invs := [], lt := false }) ?_ (frame_rlog _ _).shrink
+  · refine Shrink.trans (b := { rt with st := { rt.st with status := "stopped" }, timers := [], invs := [], lt := false, lw := none }) ?_ (frame_rlog _ _).shrink
     exact ⟨rfl, rfl, rfl, rfl, Nat.le_refl _, Nat.le_refl _, fun t h => by simp at h, fun i h => by simp at h,
       fun g => by
         have := good_clear rt g
@@ -571,14 +571,176 @@ theorem shrink_nextId (rt : RT) (n : Nat) (h : rt.nextId ≤ n) : Shrink rt { rt
    fun g => ⟨g.cur, g.curI, g.armed, fun t ht => Nat.lt_of_lt_of_le (g.seqT t ht) h, fun t ht => Nat.lt_of_lt_of_le (g.seqF t ht) h,
      fun i hi => Nat.lt_of_lt_of_le (g.seqI i hi) h, g.ndT, g.ndF, g.ndI, g.disj, g.actF, g.uniq⟩, fun _ h => Or.inl h⟩
 
+theorem shrink_callHopped (rt : RT) : Shrink rt (callHopped rt) := by
+  unfold callHopped
+  exact shrink_foldl startOne shrink_startOne _ _
+
 /-- the real interleaving handler is window-like -/
 theorem shrink_window (fl : Flavor) (m : Machine) (d : Nat) (rt : RT) : Shrink rt (window fl m d rt) := by
   unfold window
-  exact (((shrink_nextId rt (rt.nextId + 1) (Nat.le_succ _)).trans (shrink_startPending _)).trans
-    (shrink_windowLoop fl m _ _ _ _)).trans (frame_setNow _ _).shrink
+  cases fl with
+  | sync =>
+    exact (((shrink_nextId rt (rt.nextId + 1) (Nat.le_succ _)).trans (shrink_startPending _)).trans
+      (shrink_windowLoop .sync m _ _ _ _)).trans (frame_setNow _ _).shrink
+  | async =>
+    exact (((((shrink_nextId rt (rt.nextId + 1) (Nat.le_succ _)).trans (shrink_windowLoop .async m _ _ _ _)).trans
+      (shrink_callHopped _)).trans (shrink_startPending _)).trans (shrink_windowLoop .async m _ _ _ _)).trans (frame_setNow _ _).shrink
 
 theorem wndOK_mkCx (fl : Flavor) (m : Machine) (u : UEnv) (r : REnv) : WndOK (mkCx fl m u r) :=
   fun d rt => shrink_window fl m d rt
+
+-- the ready queue of one instant (async) ------------------------------------------------------------------------
+/-- the bookkeeping of the ready queue (is the run loop alive / in the queue, the allocation counter) is not read by the
+    invariant -/
+theorem shrink_sched (rt : RT) (b : Bool) (o : Option Nat) (n : Nat) (h : rt.nextId ≤ n) :
+    Shrink rt { rt with lt := b, lw := o, nextId := n } :=
+  ⟨rfl, rfl, rfl, rfl, Nat.le_refl _, h, fun t ht => ⟨t, ht, rfl⟩, fun i hi => ⟨i, hi, rfl⟩,
+   fun g => ⟨g.cur, g.curI, g.armed, fun t ht => Nat.lt_of_lt_of_le (g.seqT t ht) h, fun t ht => Nat.lt_of_lt_of_le (g.seqF t ht) h,
+     fun i hi => Nat.lt_of_lt_of_le (g.seqI i hi) h, g.ndT, g.ndF, g.ndI, g.disj, g.actF, g.uniq⟩, fun _ h => Or.inl h⟩
+
+/-- a timer task's scheduling data (has it begun to sleep, the stamp of its wake-up) change: the timer is the same -/
+theorem shrink_mapTimers (rt : RT) (f : Timer → Timer) (hf : ∀ t, tcore (f t) = tcore t) (n : Nat) (hge : rt.nextId ≤ n) :
+    Shrink rt { rt with timers := rt.timers.map f, nextId := n } := by
+  have hcore : (rt.timers.map f).map tcore = rt.timers.map tcore := by
+    rw [List.map_map]; apply List.map_congr_left; intro t _; exact hf t
+  have hseq : (rt.timers.map f).map (·.seq) = rt.timers.map (·.seq) := by
+    rw [List.map_map]; apply List.map_congr_left; intro t _
+    have := hf t; simp only [tcore, Prod.mk.injEq] at this; exact this.2.2.2.1
+  have hm : ∀ t ∈ rt.timers.map f, ∃ t' ∈ rt.timers, tcore t' = tcore t :=
+    fun t ht => mem_of_map_eq tcore _ _ hcore t ht
+  refine ⟨rfl, rfl, rfl, rfl, Nat.le_refl _, hge, hm, fun i h => ⟨i, h, rfl⟩, ?_, fun _ h => Or.inl h⟩
+  intro g
+  refine ⟨?_, g.curI, ?_, ?_, fun t ht => Nat.lt_of_lt_of_le (g.seqF t ht) hge, fun i hi => Nat.lt_of_lt_of_le (g.seqI i hi) hge, ?_, g.ndF, g.ndI, ?_,
+    g.actF, ?_⟩
+  · intro t ht
+    obtain ⟨t', h1, h2⟩ := hm t ht
+    simp only [tcore, Prod.mk.injEq] at h2
+    rw [← h2.1, ← h2.2.1]; exact g.cur t' h1
+  · intro t ht
+    obtain ⟨t', h1, h2⟩ := hm t ht
+    simp only [tcore, Prod.mk.injEq] at h2
+    rw [← h2.2.2.1]; exact g.armed t' h1
+  · intro t ht
+    obtain ⟨t', h1, h2⟩ := hm t ht
+    simp only [tcore, Prod.mk.injEq] at h2
+    rw [← h2.2.2.2.1]; exact Nat.lt_of_lt_of_le (g.seqT t' h1) hge
+  · show ((rt.timers.map f).map (·.seq)).Nodup
+    rw [hseq]; exact g.ndT
+  · intro t ht x hx
+    obtain ⟨t', h1, h2⟩ := hm t ht
+    simp only [tcore, Prod.mk.injEq] at h2
+    rw [← h2.2.2.2.1]; exact g.disj t' h1 x hx
+  · intro x y hx hy hk
+    have conv : ∀ z : Timer, (z ∈ rt.timers.map f ∨ z ∈ rt.fired) →
+        ∃ z', (z' ∈ rt.timers ∨ z' ∈ rt.fired) ∧ tkey z' = tkey z ∧ z'.seq = z.seq := by
+      intro z hz
+      rcases hz with h | h
+      · obtain ⟨z', h1, h2⟩ := hm z h
+        simp only [tcore, Prod.mk.injEq] at h2
+        exact ⟨z', Or.inl h1, by simp only [tkey, Prod.mk.injEq]; exact ⟨h2.1, h2.2.1, h2.2.2.2.2⟩, h2.2.2.2.1⟩
+      · exact ⟨z, Or.inr h, rfl, rfl⟩
+    obtain ⟨x', hx1, hx2, hx3⟩ := conv x hx
+    obtain ⟨y', hy1, hy2, hy3⟩ := conv y hy
+    rw [← hx3, ← hy3]; exact g.uniq x' y' hx1 hy1 (by rw [hx2, hy2, hk])
+
+/-- a service task's scheduling data (first hop done, the stamp of its next step) change: the task is the same -/
+theorem shrink_mapInvs (rt : RT) (f : Invocation → Invocation) (hf : ∀ j, icore (f j) = icore j) (n : Nat) (hge : rt.nextId ≤ n) :
+    Shrink rt { rt with invs := rt.invs.map f, nextId := n } := by
+  have hfo : ∀ j, (f j).owner = j.owner ∧ (f j).act = j.act ∧ (f j).seq = j.seq := by
+    intro j; have := hf j; simp only [icore, Prod.mk.injEq] at this; exact this
+  have hmem : ∀ j ∈ rt.invs.map f, ∃ j' ∈ rt.invs, f j' = j := fun j hj => by
+    obtain ⟨j', h1, h2⟩ := List.mem_map.mp hj; exact ⟨j', h1, h2⟩
+  refine ⟨rfl, rfl, rfl, rfl, Nat.le_refl _, hge, fun t h => ⟨t, h, rfl⟩, ?_, ?_, fun _ h => Or.inl h⟩
+  · intro j hj
+    obtain ⟨j', h1, h2⟩ := hmem j hj
+    exact ⟨j', h1, by rw [← h2, hf]⟩
+  · intro g
+    refine ⟨g.cur, ?_, g.armed, fun t ht => Nat.lt_of_lt_of_le (g.seqT t ht) hge, fun t ht => Nat.lt_of_lt_of_le (g.seqF t ht) hge, ?_, g.ndT, g.ndF, ?_, g.disj,
+      g.actF, g.uniq⟩
+    · intro j hj
+      obtain ⟨j', h1, h2⟩ := hmem j hj
+      have := g.curI j' h1
+      rw [← h2, (hfo j').1, (hfo j').2.1]; exact this
+    · intro j hj
+      obtain ⟨j', h1, h2⟩ := hmem j hj
+      rw [← h2, (hfo j').2.2]; exact Nat.lt_of_lt_of_le (g.seqI j' h1) hge
+    · have : (rt.invs.map f).map (·.seq) = rt.invs.map (·.seq) := by
+        rw [List.map_map]; apply List.map_congr_left; intro j _; exact (hfo j).2.2
+      show ((rt.invs.map f).map (·.seq)).Nodup
+      rw [this]; exact g.ndI
+
+theorem minItemL_mem (lw : Nat) : ∀ (xs : List Item) (it : Item), minItemL lw xs = some it → it ∈ xs := by
+  intro xs
+  induction xs with
+  | nil => intro it h; simp [minItemL] at h
+  | cons x xs ih =>
+    intro it h
+    unfold minItemL at h
+    cases hm : minItemL lw xs with
+    | none => simp [hm] at h; rw [← h]; exact List.mem_cons_self
+    | some b =>
+      simp only [hm] at h
+      split at h
+      · injection h with h; rw [← h]; exact List.mem_cons_of_mem _ (ih b hm)
+      · injection h with h; rw [← h]; exact List.mem_cons_self
+
+/-- the sleeper that is woken next is an armed timer (or a live service task) -/
+theorem nextItem_tm (rt : RT) (t : Timer) (h : nextItem rt = some (.wake (.tm t))) : t ∈ rt.timers := by
+  have hm := minItemL_mem _ _ _ h
+  unfold readyItems at hm
+  simp only [List.mem_append, List.mem_map, List.mem_filter] at hm
+  rcases hm with ((h1 | ⟨w, ⟨hw, _⟩, he⟩) | ⟨t', _, he⟩) | ⟨i, _, he⟩
+  · cases hl : rt.lw <;> simp [hl] at h1
+  · injection he with he
+    subst he
+    unfold wakes at hw
+    rcases List.mem_append.mp hw with h2 | h2
+    · obtain ⟨t', ht', e⟩ := List.mem_map.mp h2
+      injection e with e
+      rw [← e]; exact (List.mem_filter.mp ht').1
+    · obtain ⟨i, _, e⟩ := List.mem_map.mp h2
+      cases e
+  · cases he
+  · split at he <;> cases he
+
+theorem shrink_runTask (it : Item) (rt : RT) (hit : ∀ t, it = .wake (.tm t) → t ∈ rt.timers) : Shrink rt (runTask it rt) := by
+  unfold runTask
+  cases it with
+  | loop => exact Shrink.refl rt
+  | wake w => exact shrink_fireWakeQ .async rt w (fun t ht => hit t (by rw [ht]))
+  | tstart t =>
+    have hf : ∀ x : Timer, tcore (if x.seq = t.seq then { x with started := true, wseq := rt.nextId } else x) = tcore x := by
+      intro x; split <;> rfl
+    exact shrink_mapTimers rt (fun x => if x.seq = t.seq then { x with started := true, wseq := rt.nextId } else x) hf _ (Nat.le_succ _)
+  | hop i =>
+    have hf : ∀ j : Invocation, icore (if j.seq = i.seq then { j with hopped := true, wseq := rt.nextId } else j) = icore j := by
+      intro j; split <;> rfl
+    exact shrink_mapInvs rt (fun j => if j.seq = i.seq then { j with hopped := true, wseq := rt.nextId } else j) hf _ (Nat.le_succ _)
+  | call i => exact shrink_startOne rt i
+
+theorem shrink_wakeLoop (rt : RT) : Shrink rt (wakeLoop rt) := by
+  unfold wakeLoop
+  split
+  · exact shrink_sched rt rt.lt (some rt.nextId) (rt.nextId + 1) (Nat.le_succ _)
+  · exact Shrink.refl rt
+
+theorem shrink_runTasks : ∀ (fuel : Nat) (rt : RT), Shrink rt (runTasks fuel rt) := by
+  intro fuel
+  induction fuel with
+  | zero => intro rt; exact Shrink.refl rt
+  | succ fuel ih =>
+    intro rt
+    unfold runTasks
+    cases hn : nextItem (wakeLoop rt) with
+    | none => exact shrink_wakeLoop rt
+    | some it =>
+      have hit : ∀ t, it = .wake (.tm t) → t ∈ (wakeLoop rt).timers := fun t ht => nextItem_tm _ t (ht ▸ hn)
+      cases it with
+      | loop => exact shrink_wakeLoop rt
+      | wake w => exact ((shrink_wakeLoop rt).trans (shrink_runTask _ _ hit)).trans (ih _)
+      | tstart t => exact ((shrink_wakeLoop rt).trans (shrink_runTask _ _ hit)).trans (ih _)
+      | hop i => exact ((shrink_wakeLoop rt).trans (shrink_runTask _ _ hit)).trans (ih _)
+      | call i => exact ((shrink_wakeLoop rt).trans (shrink_runTask _ _ hit)).trans (ih _)
 
 -- steps that keep the invariant ---------------------------------------------------------------------------------
 /-- `b` is reached from `a` by a step that keeps the invariant (or leaves the `clean` regime) -/
@@ -1640,6 +1802,19 @@ theorem keeps_loopRuns (c : RCx) (hw : WndOK c) (rt : RT) : Keeps rt (loopRuns c
   unfold loopRuns
   exact (keeps_asyncDrain c hw _ _).trans (keeps_lt _ _)
 
+theorem keeps_loopTurn (c : RCx) (hw : WndOK c) (rt : RT) : Keeps rt (loopTurn c rt) := by
+  unfold loopTurn
+  have k0 : ∀ (r : RT) (b : Bool), Keeps r { r with lt := b, lw := none } := fun r b =>
+    (shrink_sched r b none r.nextId (Nat.le_refl _)).keeps
+  split
+  · exact (k0 rt rt.lt).trans (keeps_loopRuns c hw _)
+  · split
+    · exact k0 rt rt.lt
+    · split
+      · rename_i _ rest _
+        exact Keeps.trans (b := { rt with st := { rt.st with queue := rest } }) (keeps_st_eq _ _ rfl) (k0 _ false)
+      · exact k0 rt false
+
 theorem keeps_settle (c : RCx) (hw : WndOK c) : ∀ (fuel : Nat) (rt : RT), Keeps rt (settle c fuel rt) := by
   intro fuel
   induction fuel with
@@ -1651,16 +1826,10 @@ theorem keeps_settle (c : RCx) (hw : WndOK c) : ∀ (fuel : Nat) (rt : RT), Keep
     | sync => exact (shrink_startPending rt).keeps
     | async =>
       simp only
-      have k1 := (shrink_startPending rt).keeps
+      have k1 := (shrink_runTasks (2 * rt.timers.length + 3 * rt.invs.length + 2) rt).keeps
       split
       · exact k1
-      · split
-        · exact (k1.trans (keeps_loopRuns c hw _)).trans (ih _)
-        · split
-          · rename_i q rest _
-            exact (k1.trans (Keeps.trans (b := { (startPending rt) with st := { (startPending rt).st with queue := rest } })
-              (keeps_st_eq _ _ rfl) (keeps_lt _ _)))
-          · exact k1
+      · exact (k1.trans (keeps_loopTurn c hw _)).trans (ih _)
 
 -- the top level ---------------------------------------------------------------------------------------------------
 theorem startHooks_ok (c : RCx) : HooksOK (startHooks c) := by
@@ -1673,7 +1842,9 @@ theorem keeps_startFailed (c : RCx) (r : RT) : Keeps r (startFailed c r) := by
   unfold startFailed
   cases c.fl with
   | sync => exact Keeps.refl r
-  | async => exact Keeps.trans (b := { r with st := { r.st with status := "stopped" } }) (keeps_st_eq r _ rfl) (keeps_lt _ _)
+  | async =>
+    exact Keeps.trans (b := { r with st := { r.st with status := "stopped" } }) (keeps_st_eq r _ rfl)
+      (shrink_sched _ false none _ (Nat.le_refl _)).keeps
 
 theorem keeps_startEnter (c : RCx) (hw : WndOK c) (rt : RT) : Keeps rt (startEnter c rt) := by
   unfold startEnter
@@ -1693,7 +1864,7 @@ theorem keeps_startFinish (c : RCx) (hw : WndOK c) (rt : RT) : Keeps rt (startFi
     refine Keeps.trans ?_ (keeps_settle c hw _ _)
     unfold loopCreated
     split
-    · exact (shrink_startTimers rt).keeps.trans (keeps_loopRuns c hw _)
+    · exact (shrink_sched rt rt.lt (some rt.nextId) (rt.nextId + 1) (Nat.le_succ _)).keeps
     · exact Keeps.refl rt
 
 theorem keeps_start (c : RCx) (hw : WndOK c) (rt : RT) : Keeps rt (startRT c rt) := by
@@ -1711,7 +1882,11 @@ theorem keeps_extIdle (c : RCx) (hw : WndOK c) (op : ExtOp) (rt : RT) : Keeps rt
   cases op with
   | send e =>
     cases c.fl with
-    | async => exact (shrink_deliver _ _).keeps
+    | async =>
+      simp only
+      split
+      · exact ((shrink_deliver _ rt).trans (shrink_sched _ (deliver (.user e) rt).lt (some 0) _ (Nat.le_refl _))).keeps
+      · exact (shrink_deliver _ _).keeps
     | sync =>
       exact (Keeps.trans (b := { rt with st := { rt.st with err := none } }) (keeps_st_eq rt _ rfl) (frame_rlog _ _).shrink.keeps).trans
         (keeps_syncSend c hw _ _)
@@ -1733,8 +1908,8 @@ theorem keeps_fireIdle (c : RCx) (hw : WndOK c) (w : Wake) (rt : RT) (hwk : minW
   cases c.fl with
   | async =>
     simp only
-    exact ((((shrink_agenda rt []).trans (frame_setNow w.due _).shrink).trans (shrink_windowLoop .async c.m _ _ _ _)).trans
-      (shrink_agenda _ rt.agenda)).keeps
+    refine ((frame_setNow w.due rt).shrink.trans (shrink_fireWakeQ .async _ w ?_)).keeps
+    intro t ht; subst ht; exact minWake_tm rt t hwk
   | sync =>
     simp only
     cases w with
